@@ -906,6 +906,11 @@ var ReverseListFunc = function.New(&function.Spec{
 	RefineResult: refineNonNull,
 	Impl: func(args []cty.Value, retType cty.Type) (ret cty.Value, err error) {
 		in, marks := args[0].Unmark()
+		if in.Type().IsSetType() && !in.IsWhollyKnown() {
+			// The iteration order of a set depends on the values of all of
+			// its members, so it isn't decided until they are all known.
+			return cty.UnknownVal(retType).WithMarks(marks), nil
+		}
 		inVals := in.AsValueSlice()
 		outVals := make([]cty.Value, len(inVals))
 
